@@ -89,3 +89,309 @@ Qed.
 Lemma rbind_ok : forall A B (m : R A) (f : A -> R B) x,
   rbind m f = ROk x -> exists a, m = ROk a /\ f a = ROk x.
 Proof. intros A B m f x H. destruct m; simpl in H; try discriminate. eauto. Qed.
+
+Section Refine.
+  Variables is_space is_letter is_number : N -> bool.
+  Variable to_lower : N -> N.
+  Variable case_sensitive : bool.
+  Variable ftype : bytes -> N.
+  Variable data : runes.
+
+  Notation L := (length data).
+  Notation cur := (cur data).
+  Notation eof := (eof data).
+  Notation skip_sp := (skip_sp is_space data).
+  Notation simple_term := (simple_term is_space data).
+  Notation settled := (settled is_space data).
+  Notation ltoks := (ltoks is_space is_letter is_number to_lower case_sensitive ftype data).
+  Notation bsub := (bsub is_space is_letter is_number to_lower case_sensitive ftype data).
+  Notation bexpr := (bexpr is_space is_letter is_number to_lower case_sensitive ftype data).
+  Notation bloop := (bloop is_space is_letter is_number to_lower case_sensitive ftype data).
+  Notation field_operand :=
+    (field_operand is_space is_letter is_number to_lower case_sensitive ftype data).
+
+  Notation err_unexpected := (Legacy.err_unexpected is_space data).
+
+  Lemma bsub_S : forall f depth pos lv, bsub (S f) depth pos lv =
+        if eof pos then RErr else
+        do c <- cur pos;
+        if N.eqb c 40 then
+          do p1 <- skip_sp (S pos);
+          do st <- bexpr f (S depth) p1 lv;
+          let '((e, lv2), p2) := st in
+          if eof p2 then RErr else
+          do c2 <- cur p2;
+          if negb (N.eqb c2 41) then err_unexpected p2
+          else do p3 <- skip_sp (S p2); ROk ((e, lv2), p3)
+        else
+          do st <- simple_term pos;
+          let '(name, p1) := st in
+          if eq_fold_ascii name kw_not_r then
+            do st2 <- bsub f depth p1 lv;
+            let '((ch, lv2), p2) := st2 in
+            ROk ((NotN ch, lv2), p2)
+          else
+            do st2 <- field_operand name p1 lv;
+            let '((k, lv2), p2) := st2 in
+            do e <- and_tree (length lv) k;
+            ROk ((e, lv2), p2).
+  Proof. reflexivity. Qed.
+
+  Lemma bexpr_S : forall f depth pos lv, bexpr (S f) depth pos lv =
+        do st <- bsub f depth pos lv;
+        let '((high, lv2), p) := st in
+        bloop f depth None high p lv2.
+  Proof. reflexivity. Qed.
+
+  Lemma bloop_S : forall f depth low high pos lv, bloop (S f) depth low high pos lv =
+        do st <- simple_term pos;
+        let '(op, p1) := st in
+        let lop := map to_lower op in
+        if runes_eqb lop kw_and_r then
+          do st2 <- bsub f depth p1 lv;
+          let '((rgt, lv2), p2) := st2 in
+          bloop f depth low (AndN high rgt) p2 lv2
+        else if runes_eqb lop kw_or_r then
+          do st2 <- bsub f depth p1 lv;
+          let '((rgt, lv2), p2) := st2 in
+          bloop f depth (Some (join_or low high)) rgt p2 lv2
+        else
+          match op with
+          | [] =>
+            do fin <- (if eof p1 then ROk true
+                       else do c <- cur p1; ROk (N.eqb c 41 && Nat.ltb 0 depth));
+            if fin then ROk ((join_or low high, lv), p1) else err_unexpected p1
+          | _ => RErr
+          end.
+  Proof. reflexivity. Qed.
+
+  Lemma skip_loop_ne : forall fuel pos, skip_loop is_space data fuel pos <> RErr.
+  Proof.
+    induction fuel as [|f IH]; intros pos; simpl; [discriminate|].
+    destruct (eof pos); [discriminate|]. unfold Legacy.cur. destruct (nth_error data pos) as [a|]; simpl; try discriminate.
+    destruct (is_space a); [apply IH | discriminate].
+  Qed.
+  Lemma word_loop_ne : forall fuel pos, word_loop is_space data fuel pos <> RErr.
+  Proof.
+    induction fuel as [|f IH]; intros pos; simpl; [discriminate|].
+    destruct (eof pos); [discriminate|]. unfold Legacy.cur. destruct (nth_error data pos) as [a|]; simpl; try discriminate.
+    destruct (is_space a || special a); [discriminate | apply IH].
+  Qed.
+  Lemma simple_term_ne : forall pos, simple_term pos <> RErr.
+  Proof.
+    intros pos. unfold Legacy.simple_term.
+    pose proof (word_loop_ne (lfuel data pos) pos) as H1.
+    destruct (word_loop is_space data (lfuel data pos) pos) as [fin| | |]; simpl; try discriminate;
+      try congruence.
+    pose proof (skip_loop_ne (lfuel data fin) fin) as H2. unfold Legacy.skip_sp.
+    destruct (skip_loop is_space data (lfuel data fin) fin) as [p| | |]; simpl; try discriminate;
+      try congruence.
+    unfold slice. destruct (Nat.leb pos fin && Nat.leb fin (length data)); simpl; discriminate.
+  Qed.
+
+  Lemma simple_term_spec : forall pos, pos <= L ->
+    exists w p, simple_term pos = ROk (w, p) /\ simple_post is_space data pos (w, p).
+  Proof.
+    intros pos Hle. pose proof (simple_term_ok is_space data pos Hle) as H.
+    pose proof (simple_term_ne pos) as Hne.
+    destruct (simple_term pos) as [[w p]| | |]; simpl in H; try contradiction; try congruence; eauto.
+  Qed.
+
+  (* at the end of input, or on a special symbol while settled: the empty word, pos unchanged *)
+  Lemma simple_term_stop : forall pos, pos <= L -> settled pos ->
+    (eof pos = true \/ exists c, nth_error data pos = Some c /\ special c = true) ->
+    simple_term pos = ROk ([], pos).
+  Proof.
+    intros pos Hle Hs Hc. destruct (simple_term_spec pos Hle) as [w [p [Hst [Hp [Hsp [Hnil Hstop]]]]]].
+    assert (w = []).
+    { destruct Hc as [He | [c [Hn Hspc]]].
+      - apply eof_true in He. destruct w; [reflexivity | simpl in Hp; lia].
+      - apply (Hstop c Hn). rewrite Hspc. apply Bool.orb_true_r. }
+    subst w. rewrite (Hnil eq_refl Hs) in Hst. exact Hst.
+  Qed.
+
+  Definition at_end (d p : nat) : Prop := eof p = true \/ (cur p = ROk 41%N /\ 0 < d).
+
+  Definition ref_rel (d : nat) (lvf : list ltoken) (r : R ((ast * list ltoken) * nat))
+             (Rel : res (ast * list tok) -> Prop) (extra : nat -> Prop) : Prop :=
+    match r with
+    | ROk ((e, lv'), p') =>
+        exists F' ts2, ltoks F' d false p' lv' = ROk (ts2, lvf) /\ Rel (Ok (e, ts2)) /\
+                       p' <= L /\ settled p' /\ extra p'
+    | RErr => Rel Err
+    | _ => True
+    end.
+
+  Lemma ref_all : forall f,
+    (forall d pos lv F ts lvf, pos <= L -> settled pos ->
+       ltoks F d true pos lv = ROk (ts, lvf) ->
+       ref_rel d lvf (bsub f d pos lv) (SubR d ts) (fun _ => True)) /\
+    (forall d pos lv F ts lvf, pos <= L -> settled pos ->
+       ltoks F d true pos lv = ROk (ts, lvf) ->
+       ref_rel d lvf (bexpr f d pos lv) (FilR d ts) (at_end d)) /\
+    (forall d low high pos lv F ts lvf, pos <= L -> settled pos ->
+       ltoks F d false pos lv = ROk (ts, lvf) ->
+       ref_rel d lvf (bloop f d low high pos lv) (LoopR d low high ts) (at_end d)).
+  Proof.
+    induction f as [|f [IHs [IHe IHl]]].
+    { repeat split; intros; exact I. }
+    split; [| split].
+    - (* parseSubexpr *)
+      intros d pos lv F ts lvf Hle Hs H.
+      destruct F as [|F0]; [discriminate|]. cbn [Legacy.ltoks] in H. rewrite bsub_S. revert H.
+      destruct (eof pos) eqn:E.
+      { intros H. inversion H; subst. apply SubR_nil. }
+      pose proof (eof_false data _ E Hle) as Hlt. destruct (cur_ok data _ Hlt) as [c [Hc Hn]].
+      rewrite Hc. cbn [rbind]. destruct (N.eqb c 40) eqn:E40.
+      { pose proof (skip_sp_ok is_space data (S pos) Hlt) as Hsk.
+        destruct (skip_sp (S pos)) as [p1| | |]; cbn [rbind]; simpl in Hsk; try discriminate;
+          try contradiction.
+        destruct Hsk as [Hp1 [Hs1 _]].
+        intros H. apply rbind_ok in H as [[ts' lvf'] [H1 H2]]. simpl in H2. inversion H2; subst.
+        assert (Hp1' : p1 <= L) by lia.
+        specialize (IHe (S d) p1 lv F0 ts' lvf Hp1' Hs1 H1).
+        destruct (bexpr f (S d) p1 lv) as [[[e lv2] p2]| | |]; cbn [rbind]; simpl in IHe;
+          [| apply SubR_lp_err; exact IHe | exact I | exact I].
+        destruct IHe as [F' [ts2 [Ht [Hrel [Hp2 [Hs2 Hend]]]]]].
+        destruct F' as [|F1]; [discriminate|]. cbn [Legacy.ltoks] in Ht.
+        destruct (eof p2) eqn:E2.
+        { rewrite (simple_term_stop p2 Hp2 Hs2 (or_introl E2)) in Ht.
+          cbn [rbind map runes_eqb kw_and_r kw_or_r] in Ht.
+          rewrite E2 in Ht. inversion Ht; subst. simpl. eapply SubR_lp_end. exact Hrel. }
+        assert (Hlt2 : p2 < L) by (apply eof_false; assumption).
+        destruct (cur_ok data _ Hlt2) as [c2 [Hc2 Hn2]]. rewrite Hc2. cbn [rbind].
+        destruct (N.eqb c2 41) eqn:E41; cbn [negb].
+        2:{ exfalso. destruct Hend as [He | [Hc41 _]]; [congruence|].
+            rewrite Hc2 in Hc41. inversion Hc41; subst. discriminate. }
+        apply N.eqb_eq in E41. subst c2.
+        rewrite (simple_term_stop p2 Hp2 Hs2) in Ht by (right; exists 41%N; split; [exact Hn2 | reflexivity]).
+        cbn [rbind map runes_eqb kw_and_r kw_or_r] in Ht. rewrite E2, Hc2 in Ht. cbn [rbind] in Ht.
+        assert (Hx : (N.eqb 41 41 && Nat.ltb 0 (S d)) = true) by reflexivity. rewrite Hx in Ht.
+        pose proof (skip_sp_ok is_space data (S p2) Hlt2) as Hsk3.
+        revert Ht.
+        destruct (skip_sp (S p2)) as [p3| | |]; cbn [rbind]; simpl in Hsk3; try discriminate;
+          try contradiction.
+        destruct Hsk3 as [Hp3 [Hs3 _]]. intros Ht.
+        apply rbind_ok in Ht as [[ts3 lvf3] [Ht1 Ht2]]. simpl in Ht2. inversion Ht2; subst.
+        simpl. exists F1, ts3. split; [exact Ht1|]. split; [apply SubR_lp_ok; exact Hrel|].
+        repeat split; auto; lia. }
+      destruct (simple_term_spec pos Hle) as [name [p1 [Hst [Hp1 [Hs1 [Hnil _]]]]]].
+      rewrite Hst. cbn [rbind]. destruct (eq_fold_ascii name kw_not_r) eqn:En.
+      { intros H. apply rbind_ok in H as [[ts' lvf'] [H1 H2]]. simpl in H2. inversion H2; subst.
+        assert (Hp1' : p1 <= L) by lia.
+        specialize (IHs d p1 lv F0 ts' lvf Hp1' Hs1 H1).
+        destruct (bsub f d p1 lv) as [[[ch lv2] p2]| | |]; cbn [rbind]; simpl in IHs;
+          [| apply SubR_not_err; exact IHs | exact I | exact I].
+        destruct IHs as [F' [ts2 [Ht [Hrel [Hp2 [Hs2 _]]]]]].
+        simpl. exists F', ts2. repeat split; auto. apply SubR_not_ok. exact Hrel. }
+      assert (Hfo : wp (field_operand name p1 lv)
+                       (fun x => p1 < snd x <= L /\ settled (snd x) /\ fst (fst x) <> 0)).
+      { apply field_operand_ok; [lia | intros Hn0; rewrite (Hnil Hn0 Hs); exact Hlt]. }
+      destruct (field_operand name p1 lv) as [[[k lv2] p2]| | |]; cbn [rbind]; simpl in Hfo;
+        try discriminate; try contradiction.
+      destruct Hfo as [Hp2 [Hs2 Hk]]. destruct k; [congruence|]. cbn [and_tree rbind].
+      intros H. apply rbind_ok in H as [[ts2 lvf2] [H1 H2]]. simpl in H2. inversion H2; subst.
+      simpl. exists F0, ts2. repeat split; auto; [| lia]. apply SubR_leaf.
+    - (* parseExpr *)
+      intros d pos lv F ts lvf Hle Hs H. rewrite bexpr_S.
+      specialize (IHs d pos lv F ts lvf Hle Hs H).
+      destruct (bsub f d pos lv) as [[[high lv2] p]| | |]; cbn [rbind]; simpl in IHs;
+        [| apply FilR_err; exact IHs | exact I | exact I].
+      destruct IHs as [F' [ts2 [Ht [Hrel [Hp [Hs2 _]]]]]].
+      specialize (IHl d None high p lv2 F' ts2 lvf Hp Hs2 Ht).
+      destruct (bloop f d None high p lv2) as [[[e lv3] p3]| | |]; simpl in *; auto.
+      + destruct IHl as [F'' [ts3 [Ht3 [Hrel3 Hrest]]]]. exists F'', ts3. repeat split; try tauto.
+        eapply FilR_ok; eassumption.
+      + eapply FilR_ok; eassumption.
+    - (* the loop of parseExpr *)
+      intros d low high pos lv F ts lvf Hle Hs H0. pose proof H0 as H.
+      destruct F as [|F0]; [discriminate|]. cbn [Legacy.ltoks] in H. rewrite bloop_S. revert H.
+      destruct (simple_term_spec pos Hle) as [op [p1 [Hst [Hp1 [Hs1 [Hnil _]]]]]].
+      rewrite Hst. cbn [rbind]. cbv zeta.
+      destruct (runes_eqb (map to_lower op) kw_and_r) eqn:Ea.
+      { intros H. apply rbind_ok in H as [[ts' lvf'] [H1 H2]]. simpl in H2. inversion H2; subst.
+        assert (Hp1' : p1 <= L) by lia.
+        specialize (IHs d p1 lv F0 ts' lvf Hp1' Hs1 H1).
+        destruct (bsub f d p1 lv) as [[[rgt lv2] p2]| | |]; cbn [rbind]; simpl in IHs;
+          [| apply LoopR_and_err; exact IHs | exact I | exact I].
+        destruct IHs as [F' [ts2 [Ht [Hrel [Hp2 [Hs2 _]]]]]].
+        specialize (IHl d low (AndN high rgt) p2 lv2 F' ts2 lvf Hp2 Hs2 Ht).
+        destruct (bloop f d low (AndN high rgt) p2 lv2) as [[[e lv3] p3]| | |]; simpl in *; auto.
+        + destruct IHl as [F'' [ts3 [Ht3 [Hrel3 Hrest]]]]. exists F'', ts3. repeat split; try tauto.
+          eapply LoopR_and; eassumption.
+        + eapply LoopR_and; eassumption. }
+      destruct (runes_eqb (map to_lower op) kw_or_r) eqn:Eo.
+      { intros H. apply rbind_ok in H as [[ts' lvf'] [H1 H2]]. simpl in H2. inversion H2; subst.
+        assert (Hp1' : p1 <= L) by lia.
+        specialize (IHs d p1 lv F0 ts' lvf Hp1' Hs1 H1).
+        destruct (bsub f d p1 lv) as [[[rgt lv2] p2]| | |]; cbn [rbind]; simpl in IHs;
+          [| apply LoopR_or_err; exact IHs | exact I | exact I].
+        destruct IHs as [F' [ts2 [Ht [Hrel [Hp2 [Hs2 _]]]]]].
+        specialize (IHl d (Some (join_or low high)) rgt p2 lv2 F' ts2 lvf Hp2 Hs2 Ht).
+        destruct (bloop f d (Some (join_or low high)) rgt p2 lv2) as [[[e lv3] p3]| | |];
+          simpl in *; auto.
+        + destruct IHl as [F'' [ts3 [Ht3 [Hrel3 Hrest]]]]. exists F'', ts3. repeat split; try tauto.
+          eapply LoopR_or; eassumption.
+        + eapply LoopR_or; eassumption. }
+      destruct op as [|o op]; [| intros H; discriminate].
+      assert (p1 = pos) by (apply Hnil; [reflexivity | exact Hs]). subst p1.
+      destruct (eof pos) eqn:E1.
+      { intros H. inversion H; subst. simpl. exists (S F0), []. repeat split; auto.
+        - apply LoopR_nil.
+        - left. exact E1. }
+      assert (Hlt1 : pos < L) by (apply eof_false; assumption).
+      destruct (cur_ok data _ Hlt1) as [c [Hc Hn]]. rewrite Hc. cbn [rbind].
+      destruct (N.eqb c 41 && Nat.ltb 0 d) eqn:Ec.
+      + intros H. apply Bool.andb_true_iff in Ec as [Ec1 Ec2].
+        apply N.eqb_eq in Ec1. subst c. apply Nat.ltb_lt in Ec2.
+        apply rbind_ok in H as [p2 [Hk H]]. apply rbind_ok in H as [[ts' lvf'] [H1 H2]].
+        simpl in H2. inversion H2; subst.
+        simpl. exists (S F0), (TRP :: ts'). repeat split; auto.
+        * apply LoopR_rp. exact Ec2.
+        * right. split; [exact Hc | exact Ec2].
+      + rewrite (err_unexpected_ok is_space data _ pos Hlt1). intros H. discriminate.
+  Qed.
+End Refine.
+
+Lemma legacy_refines :
+  forall (is_space is_letter is_number : N -> bool) (to_lower : N -> N) (case_sensitive : bool)
+         (ftype : bytes -> N) (q : bytes) ts lv,
+    legacy_lex is_space is_letter is_number to_lower case_sensitive ftype q = ROk (ts, lv) ->
+    legacy_parse is_space is_letter is_number to_lower case_sensitive ftype q
+    = match parse ts with Ok a => ROk (a, lv) | Err => RErr | OutOfFuel => RFuel end.
+Proof.
+  intros is_space is_letter is_number to_lower cs ftype q ts lv H.
+  unfold legacy_lex, legacy_parse in *.
+  destruct (runes_of q) as [data| | |]; cbn [rbind] in *; try discriminate.
+  unfold legacy_tokens in H. unfold build_ast.
+  pose proof (skip_sp_ok is_space data 0 (Nat.le_0_l _)) as Hsk.
+  destruct (skip_sp is_space data 0) as [p0| | |]; cbn [rbind] in *; simpl in Hsk; try discriminate.
+  destruct Hsk as [Hp0 [Hs0 _]]. assert (Hp0' : p0 <= length data) by lia.
+  destruct (ref_all is_space is_letter is_number to_lower cs ftype data (pfuel data)) as [_ [He _]].
+  specialize (He 0 p0 [] (pfuel data) ts lv Hp0' Hs0 H).
+  destruct (parse_all is_space is_letter is_number to_lower cs ftype data (pfuel data)) as [_ [Ht _]].
+  assert (Hfuel : 2 * (length data - p0) + 2 <= pfuel data) by (unfold pfuel; lia).
+  specialize (Ht 0 p0 [] Hp0' Hs0 Hfuel).
+  destruct (bexpr is_space is_letter is_number to_lower cs ftype data (pfuel data) 0 p0 [])
+    as [[[e lv'] p]| | |]; cbn [rbind]; simpl in He, Ht; try contradiction.
+  - destruct He as [F' [ts2 [Hl [Hrel [Hp [Hs Hend]]]]]].
+    destruct Hend as [Heof | [_ Hd]]; [| lia].
+    destruct F' as [|F1]; [discriminate|]. cbn [Legacy.ltoks] in Hl.
+    rewrite (simple_term_stop is_space data p Hp Hs (or_introl Heof)) in Hl.
+    cbn [rbind map runes_eqb kw_and_r kw_or_r] in Hl. rewrite Heof in Hl. inversion Hl; subst.
+    apply FilR_fuel_for in Hrel. unfold parse, parse_raw. rewrite Hrel. reflexivity.
+  - apply FilR_fuel_for in He. unfold parse, parse_raw. rewrite He. reflexivity.
+Qed.
+
+(* hence the denotation theorem of the token level applies to raw legacy strings *)
+Lemma legacy_raw_denotes :
+  forall (is_space is_letter is_number : N -> bool) (to_lower : N -> N) (case_sensitive : bool)
+         (ftype : bytes -> N) (q : bytes) e lv,
+    legacy_lex is_space is_letter is_number to_lower case_sensitive ftype q = ROk (render_min e, lv) ->
+    exists t, legacy_parse is_space is_letter is_number to_lower case_sensitive ftype q = ROk (t, lv)
+              /\ forall v, eval v t = den v e.
+Proof.
+  intros is_space is_letter is_number to_lower cs ftype q e lv H.
+  destruct (parse_denotes_min e) as [t [Hp [Hd _]]].
+  exists t. split; [| exact Hd]. rewrite (legacy_refines _ _ _ _ _ _ _ _ _ H). rewrite Hp. reflexivity.
+Qed.
